@@ -32,7 +32,7 @@ func (vc *VC) readField(st *State, v Value, name string) Value {
 func (vc *VC) writeField(st *State, ref Term, structT types.Type, name string, nv Term) {
 	k := vc.fieldKind(structT, name)
 	h := vc.heapOfKind(st, k)[0]
-	st.heaps[k.Name] = tStore(h, ref, nv)
+	st.heaps[k.Name] = vc.name(st, k.Name, tStore(h, ref, nv))
 }
 
 // loadStruct builds the struct value *ref.
@@ -102,7 +102,7 @@ func (vc *VC) sliceStore(st *State, s Term, elem types.Type, i Term, v Term) {
 	k := vc.sliceKind(elem)
 	h := vc.heapOfKind(st, k)[0]
 	arr := tSelect(h, vc.slRef(s))
-	st.heaps[k.Name] = tStore(h, vc.slRef(s), tStore(arr, vc.iadd(vc.slOff(s), i), v))
+	st.heaps[k.Name] = vc.name(st, k.Name, tStore(h, vc.slRef(s), tStore(arr, vc.iadd(vc.slOff(s), i), v)))
 }
 
 // map accessors
@@ -124,9 +124,9 @@ func (vc *VC) mapSet(st *State, m *types.Map, ref, key, v Term) {
 	hs := vc.heapOfKind(st, k)
 	vals, dom, card := tSelect(hs[0], ref), tSelect(hs[1], ref), tSelect(hs[2], ref)
 	names, _ := vc.heapVars(k)
-	st.heaps[names[0]] = tStore(hs[0], ref, tStore(vals, key, v))
-	st.heaps[names[1]] = tStore(hs[1], ref, tStore(dom, key, tTrue))
-	st.heaps[names[2]] = tStore(hs[2], ref, tIte(tSelect(dom, key), card, vc.iadd(card, vc.idxLit(1))))
+	st.heaps[names[0]] = vc.name(st, names[0], tStore(hs[0], ref, tStore(vals, key, v)))
+	st.heaps[names[1]] = vc.name(st, names[1], tStore(hs[1], ref, tStore(dom, key, tTrue)))
+	st.heaps[names[2]] = vc.name(st, names[2], tStore(hs[2], ref, tIte(tSelect(dom, key), card, vc.iadd(card, vc.idxLit(1)))))
 }
 
 func (vc *VC) mapDelete(st *State, m *types.Map, ref, key Term) {
@@ -134,8 +134,8 @@ func (vc *VC) mapDelete(st *State, m *types.Map, ref, key Term) {
 	hs := vc.heapOfKind(st, k)
 	dom, card := tSelect(hs[1], ref), tSelect(hs[2], ref)
 	names, _ := vc.heapVars(k)
-	st.heaps[names[1]] = tStore(hs[1], ref, tStore(dom, key, tFalse))
-	st.heaps[names[2]] = tStore(hs[2], ref, tIte(tSelect(dom, key), vc.isub(card, vc.idxLit(1)), card))
+	st.heaps[names[1]] = vc.name(st, names[1], tStore(hs[1], ref, tStore(dom, key, tFalse)))
+	st.heaps[names[2]] = vc.name(st, names[2], tStore(hs[2], ref, tIte(tSelect(dom, key), vc.isub(card, vc.idxLit(1)), card)))
 }
 
 func (vc *VC) newMap(st *State, m *types.Map) Term {
@@ -158,7 +158,7 @@ func (vc *VC) newSlice(st *State, elem types.Type, arr Term, ln, cp Term) Term {
 	ref := vc.allocRef(st)
 	k := vc.sliceKind(elem)
 	h := vc.heapOfKind(st, k)[0]
-	st.heaps[k.Name] = tStore(h, ref, arr)
+	st.heaps[k.Name] = vc.name(st, k.Name, tStore(h, ref, arr))
 	return vc.mkSlice(ref, vc.idxLit(0), ln, cp)
 }
 
@@ -217,4 +217,14 @@ func (vc *VC) assumeFacts(st *State, v Term, t types.Type) {
 	for _, f := range vc.typeFacts(st, v, t, 0) {
 		st.assume(f)
 	}
+}
+
+// name introduces a constant for a big term (definition assumed in the state).
+func (vc *VC) name(st *State, base string, t Term) Term {
+	if len(t.S) < 120 || t.C != nil || t.K != 0 {
+		return t
+	}
+	c := vc.fresh(base, t.Sort)
+	st.assume(tEq(c, t))
+	return c
 }
